@@ -242,6 +242,17 @@ func ruleC14(c *Ctx) {
 	// validator side: every entry compared; only a zero first output is skipped
 	crc := c.Func(pVal, "checkoutRewardCoinbase")
 	if crc != nil {
+		nmu := 0
+		for _, b := range crc.Blocks {
+			for _, in := range b.Instrs {
+				if _, ok := in.(*ssa.MapUpdate); ok {
+					nmu++
+				}
+			}
+		}
+		if nmu == 0 {
+			c.Machinef("%s no longer accumulates the coinbase outputs per program in a map: whether every reward entry is matched by the total paid to its program (duplicates, omissions) cannot be read off the new shape — undecided", fname(crc))
+		}
 		for _, b := range crc.Blocks {
 			for _, in := range b.Instrs {
 				mu, ok := in.(*ssa.MapUpdate)
